@@ -1,7 +1,7 @@
 (* C05: XML export followed by import reproduces the topology (attribute-level round trips and the
    export-side model; the tokenizer-level round trip needs Text/XmlLex.v of C06, see xml_roundtrip_partial). *)
 From Coq Require Import String NArith ZArith List Bool.
-From HV Require Import Base.Bytes Text.Base64 Text.Base64Proofs Text.XmlEscape Text.XmlEscapeProofs Text.XmlExport Text.XmlExportProofs.
+From HV Require Import Base.Bytes Gen.Tables Text.Base64 Text.Base64Proofs Text.XmlEscape Text.XmlEscapeProofs Text.XmlExport Text.XmlExportProofs.
 Import ListNotations.
 Local Open Scope N_scope.
 
@@ -113,18 +113,34 @@ Print Assumptions userdata_plain_roundtrip_partial.
 Example userdata_plain_nonvacuous : check_buffer (lit "a&b> c") = true /\ existsb (N.eqb 60) (lit "a&b> c") = false.
 Proof. split; reflexivity. Qed.
 
-(* the export itself: hwloc___xml_v2export_distances prints up to ten "Type:gp_index " entries into char _tmp[255].
-   On the faithful model the export of a loaded topology is NOT always defined (witness: twenty objects with
-   20-digit gp_index; replayed on the C code: ASan stack-buffer-overflow, corpus/c05/hetero-distances-large-gp_index),
-   and it is defined exactly when every distances line is shorter than 255 bytes *)
-Theorem export_total_refuted : exists T, export_bytes false false T = None.
-Proof. exists overflow_topo. exact export_overflow_refuted_l. Qed.
-Print Assumptions export_total_refuted.
-Theorem export_total_partial : forall v2 ud T,
-  export_bytes v2 ud T <> None <-> forallb dist_fits (t_distances T) = true.
+(* the export itself.  hwloc___xml_v2export_distances prints up to ten entries per line into a stack buffer with sprintf:
+   char _tmp[255] in EXPORT_ARRAY ("%llu "), and in EXPORT_TYPE_GPINDEX_ARRAY ("Type:gp_index ") 255 bytes until /repo
+   commit 3181493, (32+1+20+1)*10+1 since.  [export_bytes] is None when a line overruns its buffer.
+   export_total: with the committed sizes the export of EVERY topology whose distances hold 64-bit values / indexes and
+   valid object types is defined (no overrun), v3 and v2, with or without userdata callback. *)
+Theorem export_total : forall v2 ud T, Forall dist_wf (t_distances T) -> export_bytes v2 ud T <> None.
+Proof. exact export_total_l. Qed.
+Print Assumptions export_total.
+Example export_total_nonvacuous : Forall dist_wf (t_distances overflow_topo) /\ t_distances overflow_topo <> [].
+Proof.
+  split; [|discriminate]. repeat constructor; cbn [fst snd]; unfold u64, Tables.HWLOC_OBJ_TYPE_MAX; try reflexivity.
+Qed.
+
+(* for any buffer size: defined exactly when every distances line fits *)
+Theorem export_defined_iff : forall gpbuf v2 ud T,
+  export_bytes_gen v2 ud T gpbuf <> None <-> forallb (dist_fits gpbuf) (t_distances T) = true.
 Proof. exact export_defined_iff_l. Qed.
-Print Assumptions export_total_partial.
-Example export_total_nonvacuous :
-  forallb dist_fits [{| d_hetero := true; d_unique_type := 0; d_kind := 5; d_name := None; d_indexes := [];
-                        d_objs := [(4, 2); (6, 18446744073709551615)]; d_values := [10; 20; 20; 10] |}] = true.
-Proof. vm_compute. reflexivity. Qed.
+Print Assumptions export_defined_iff.
+
+(* regression for /repo commit 3181493: with the 255-byte buffer the export of a loaded topology was not total (twenty
+   objects with 20-digit gp_index, one heterogeneous matrix: corpus/c05/hetero-distances-large-gp_index, replayed on the C
+   code as an ASan stack-buffer-overflow); the committed code exports the same topology *)
+Theorem export_overflow_before_fix : exists T, Forall dist_wf (t_distances T) /\ export_bytes_gen false false T GPINDEX_BUF_OLD = None.
+Proof.
+  exists overflow_topo. split; [|exact export_overflow_before_fix_l].
+  repeat constructor; cbn [fst snd]; unfold u64, Tables.HWLOC_OBJ_TYPE_MAX; reflexivity.
+Qed.
+Print Assumptions export_overflow_before_fix.
+Theorem export_overflow_fixed : export_bytes false false overflow_topo <> None.
+Proof. exact export_overflow_fixed_l. Qed.
+Print Assumptions export_overflow_fixed.
